@@ -151,6 +151,22 @@ pub fn arith(op: u8, ka: u8, kb: u8, check_value: bool) {
     vcover!(true, "end reached");
 }
 
+/// `Object::is_zero` is what `VM::binary_op` uses to turn `/` and `%` by zero into a runtime error
+/// (and what `arith` above assumes about the divisor). It must hold exactly for the numeric zeros:
+/// too weak and a zero divisor reaches the operator (crash, C08); too strong and a legal division
+/// is reported as "Division by zero" (C09).
+pub fn is_zero_spec(k: u8) {
+    let a = num(k);
+    let want = match view(&a) {
+        N::I(v) => v == 0,
+        N::F(v) => v == 0.0,
+        N::B(v) => v == 0,
+    };
+    assert!(a.is_zero() == want, "VERIF: is_zero differs from 'is a numeric zero'");
+    std::mem::forget(a);
+    vcover!(true, "end reached");
+}
+
 pub const AND: u8 = 0;
 pub const OR: u8 = 1;
 pub const XOR: u8 = 2;
